@@ -1,0 +1,22 @@
+//go:build verif
+
+package storagesc
+
+// constructors for the state-cache engine (no logic): a StorageAllocation wrapping a fresh
+// entity of each registered version (the entity is returned too so that it can be filled),
+// and an empty Config as the contract creates it.
+func VerifPartsNewAllocationV1() (*StorageAllocation, interface{}) {
+	e := &storageAllocationV1{}
+	sa := &StorageAllocation{}
+	sa.SetEntity(e)
+	return sa, e
+}
+
+func VerifPartsNewAllocationV2() (*StorageAllocation, interface{}) {
+	e := &storageAllocationV2{}
+	sa := &StorageAllocation{}
+	sa.SetEntity(e)
+	return sa, e
+}
+
+func VerifPartsNewConfig() *Config { return newConfig() }
